@@ -98,6 +98,11 @@ def cases(tier):
         for bad in (0.0, -1.0, -1e-12, float("nan")):
             for where in range(nax):
                 out.append({"t": "curved-bad-axis", "cls": cls, "bad": repr(bad), "where": where})
+    # every sign pattern with at least one non-positive axis (a test on the product of the axes misses two negatives)
+    for cls, nax in (("Ellipse", 2), ("Ellipsoid", 3)):
+        for signs in itertools.product((1, -1, 0), repeat=nax):
+            if any(x <= 0 for x in signs):
+                out.append({"t": "curved-bad-axes", "cls": cls, "signs": list(signs)})
     for cls in ("ConvexSpheropolygon", "ConvexSpheropolyhedron"):
         for bad in (-1.0, -1e-12, float("nan")):
             out.append({"t": "sphero-bad-radius", "cls": cls, "bad": repr(bad)})
@@ -182,6 +187,10 @@ def run_case(case):
             G = F.copy()
             G[case["which"]] += case["off"] * L * nrm
             expect_value_error(rep, "Polygon", "non-planar-%g" % case["off"], case, lambda: S.Polygon(G.copy()))
+            # the same with the normal of the first three (in-plane or lifted) vertices supplied explicitly, either sign
+            n3 = np.cross(G[2] - G[1], G[0] - G[1])
+            for sg in (1.0, -2.5):
+                expect_value_error(rep, "Polygon", "non-planar-%g(normal given)" % case["off"], case, lambda sg=sg: S.Polygon(G.copy(), normal=sg * n3))
             ccw = poly if X.shoelace2(poly) > 0 else poly[::-1]
             if X.is_convex_ccw(ccw):
                 expect_value_error(rep, "ConvexPolygon", "non-planar-%g" % case["off"], case, lambda: S.ConvexPolygon(G.copy()))
@@ -299,6 +308,10 @@ def run_case(case):
         ax[case["where"]] = float(case["bad"])
         expect_value_error(rep, case["cls"], "non-positive-axis(%s)" % case["bad"], case, lambda: getattr(S, case["cls"])(*ax))
         expect_value_error(rep, case["cls"], "non-positive-axis(%s),centre" % case["bad"], case, lambda: getattr(S, case["cls"])(*ax, (1.0, 2.0, 3.0)))
+        return rep
+    if t == "curved-bad-axes":
+        ax = [1.5 * x * (k + 1) for k, x in enumerate(case["signs"])]
+        expect_value_error(rep, case["cls"], "non-positive-axes%s" % (case["signs"],), case, lambda: getattr(S, case["cls"])(*ax))
         return rep
     if t in ("sphero-bad-radius", "sphero-zero-radius"):
         if case["cls"] == "ConvexSpheropolygon":
